@@ -269,6 +269,15 @@ func Delaunay2dSlow(vs v2.VecSet) (TriangleISet, error) {
 		return nil, errors.New("number of vertices < 3")
 	}
 
+	// Work relative to the center of the points. The lifted z values
+	// lose precision if the point set is far from the origin.
+	center := vs.Min().Add(vs.Max()).MulScalar(0.5)
+	local := make(v2.VecSet, n)
+	for i, v := range vs {
+		local[i] = v.Sub(center)
+	}
+	vs = local
+
 	// map the 2d points onto a 3d parabola
 	z := make([]float64, n)
 	for i, v := range vs {
